@@ -76,6 +76,13 @@ func genDepBlocks(t *rapid.T, p DepParams, keys []KeySpec, n int, validBias bool
 		if rapid.IntRange(0, 11).Draw(t, "unregistered") == 0 {
 			b.Key = -1 - rapid.IntRange(0, 5).Draw(t, "strangerKey")
 		}
+		if i > 0 && rapid.IntRange(0, 5).Draw(t, "copyRoll") == 0 {
+			b.CopyOf = 1 + rapid.IntRange(0, i-1).Draw(t, "copyOf") // the same transaction mined in two voted blocks
+		}
+		if rapid.IntRange(0, 5).Draw(t, "lastOdd") == 0 {
+			b.NTx = rapid.SampledFrom([]int{3, 5, 7, 9, 17}).Draw(t, "oddN")
+			b.Pos = b.NTx - 1 // last leaf of an odd level: it has a mirror position
+		}
 		if validBias && rapid.IntRange(0, 9).Draw(t, "forceValid") > 0 {
 			// steer towards an acceptable deposit so that histories credit something
 			if b.Key < 0 {
@@ -360,6 +367,10 @@ func runDepositHistory(c DepositCase) Outcome {
 		for _, it := range batch.Items {
 			if len(msg.Deposits) >= 16 {
 				break
+			}
+			switch it.Mut % numDepMuts {
+			case mutDupInBatch, mutHeaderDup, mutDupMirror, mutDupOtherBlock:
+				it.Mut = 0 // batch-level duplicates arise from repeated items and copied blocks
 			}
 			single, b, v, _ := f.buildAttempt(it)
 			d := single.Deposits[0]
